@@ -272,7 +272,15 @@ pub fn exhaustive(shard: usize, nshards: usize, st: &mut Stats) {
 
 fn gen_word(rng: &mut Rng) -> String {
     let long = rng.chance(1, 10);
-    let n = if long { rng.range(10, 30) } else { rng.range(1, 8) };
+    let n = if long {
+        if rng.chance(1, 20) {
+            rng.range(100, 400)
+        } else {
+            rng.range(10, 30)
+        }
+    } else {
+        rng.range(1, 8)
+    };
     let mut s = String::new();
     for _ in 0..n {
         match rng.below(20) {
@@ -291,7 +299,11 @@ fn gen_word(rng: &mut Rng) -> String {
 }
 
 pub fn gen_text(rng: &mut Rng, styled: bool) -> String {
-    let maxw = if rng.chance(1, 5) { 60 } else { 12 };
+    let maxw = match rng.below(40) {
+        0 => 400,
+        1..=8 => 60,
+        _ => 12,
+    };
     let nwords = rng.range(1, maxw);
     let mut s = String::new();
     if rng.chance(1, 4) {
@@ -342,12 +354,18 @@ pub fn case(seed: u64, st: &mut Stats) {
     let mut rng = Rng::new(seed);
     let styled = rng.chance(1, 3);
     let t = gen_text(&mut rng, styled);
-    let w = match rng.below(10) {
+    let w = match rng.below(12) {
         0 => 0,
         1 => rng.range(1, 3),
         2 | 3 => rng.range(4, 12),
+        // far end of "any width": beyond every line, powers of two, the largest values
+        10 => *rng.pick(&[121usize, 200, 255, 256, 257, 1000, 65535, 65536, 1 << 31, 1 << 32, usize::MAX / 2, usize::MAX - 1, usize::MAX]),
+        11 => rng.range(121, 2000),
         _ => rng.range(1, 120),
     };
+    if w > 120 {
+        st.count("width.beyond-120");
+    }
     st.nontrivial(mix(hash_str(&t), w as u64));
     st.sample(|| format!("text={:?} width={} styled={}", t, w, styled));
     if styled {
